@@ -2,6 +2,8 @@ package main
 
 import (
 	"go/types"
+	"sort"
+	"strings"
 )
 
 // Additional models (context, xrand, misc).
@@ -85,15 +87,39 @@ func (i *interpreter) registerPromModels() {
 	}
 	i.addModel(promPkg+".NewCounterVec", "model vector: one child counter", vec("CounterVec"))
 	i.addModel(promPkg+".NewSummaryVec", "model vector: one child observer", vec("SummaryVec"))
+	// one child per label set (the key is the sorted "k=v" list of the concrete label values)
+	labelKey := func(fr *frame, v value) string {
+		m, ok := v.(*mapObj)
+		if !ok || m == nil {
+			return ""
+		}
+		var parts []string
+		for _, e := range m.entries {
+			ks, _ := e.key.(string)
+			vs, _ := e.val.(string)
+			parts = append(parts, ks+"="+vs)
+		}
+		sort.Strings(parts)
+		return strings.Join(parts, ",")
+	}
 	child := func(kind string) modelFn {
 		return func(fr *frame, a []value) value {
 			r := fr.t.r
 			p := a[0].(*value)
-			if c, ok := r.sideTables[p]; ok {
-				return c.(iface)
+			kids, _ := r.sideTables[p].(map[string]iface)
+			if kids == nil {
+				kids = map[string]iface{}
+				r.sideTables[p] = kids
+			}
+			key := ""
+			if len(a) > 1 {
+				key = labelKey(fr, a[1])
+			}
+			if c, ok := kids[key]; ok {
+				return c
 			}
 			c := i.promObj(fr, kind).(iface)
-			r.sideTables[p] = c
+			kids[key] = c
 			return c
 		}
 	}
@@ -112,11 +138,34 @@ func (i *interpreter) registerPromModels() {
 			switch c := r.sideTables[p].(type) {
 			case *promCount:
 				return c.n
-			case iface: // a vector: its child
-				return r.sideTables[c.v.(*value)].(*promCount).n
+			case map[string]iface: // a vector: the sum over its children
+				var total int64
+				for _, k := range c {
+					total += r.sideTables[k.v.(*value)].(*promCount).n
+				}
+				return total
 			}
 		}
 		return int64(-1)
+	})
+	i.addModel(hp+"vPromCountL", "reads the child of a model vector whose label set contains name=value", func(fr *frame, a []value) value {
+		r := fr.t.r
+		x := a[0].(iface)
+		want := a[1].(string) + "=" + a[2].(string)
+		if p, ok := x.v.(*value); ok {
+			if kids, ok := r.sideTables[p].(map[string]iface); ok {
+				var total int64
+				for key, k := range kids {
+					for _, kv := range strings.Split(key, ",") {
+						if kv == want {
+							total += r.sideTables[k.v.(*value)].(*promCount).n
+						}
+					}
+				}
+				return total
+			}
+		}
+		return int64(0)
 	})
 	i.addModel("github.com/samber/ro/ee/internal/introspection.GetFunctionDescription", "fixed description with 24 arguments (the real one parses the caller's source file)", func(fr *frame, a []value) value {
 		pkg := fr.i.prog.ImportedPackage("github.com/samber/ro/ee/internal/introspection")
